@@ -251,7 +251,7 @@ pub fn parent(tier: &str) -> i32 {
     let pool = Pool::new("C01", tier, e1common::nworkers());
     let specs = [
         SpecRun { spec: "c01-full", depth_quick: 2, depth_thorough: 3, budget_quick_s: 30.0, budget_thorough_s: 900.0 },
-        SpecRun { spec: "c01-core", depth_quick: 3, depth_thorough: 5, budget_quick_s: 20.0, budget_thorough_s: 900.0 },
+        SpecRun { spec: "c01-core", depth_quick: 4, depth_thorough: 6, budget_quick_s: 20.0, budget_thorough_s: 900.0 },
     ];
     let all = e1common::run_specs(&pool, tier, &specs, &mut report);
     // glob E4
